@@ -1,13 +1,79 @@
-"""C++ half of C04 (encoded_byte_size / sizeof constants); filled in with the C++ driver machinery."""
+"""C++ half of C04: encoded_byte_size of the full codec and sizeof of the raw struct, as compiled by g++."""
+import os
+import subprocess
+
+from .. import schema as S, wire as W, cppdrv
+from ..harness import Acc
+from . import common as C, cppcommon as CC
+
+PROP = 'C04'
 
 
 def shards(ctx):
-    return []
+    specs = CC.cpp_specs(ctx, files_quick=10, per_file=150, rand_files_quick=4, rand_per_file=14,
+                         rand_files_thorough=60)
+    return specs
 
 
 def replay_spec(ctx, witness):
-    raise NotImplementedError
+    return {'cpp': True, 'kind': 'replay', 'schema': witness['schema_json'], 'type': witness['type'], 'seed': 0,
+            'extra': witness}
 
 
 def run_shard(spec):
-    raise NotImplementedError
+    acc = Acc()
+    with C.Workdir() as wd:
+        sch, names, tagmap = CC.build_schema(spec)
+        w = W.Wire(sch)
+        text = sch.to_prophy()
+        try:
+            gen, nodes = cppdrv.prophyc_cpp(text, wd, full=True, raw=True)
+            lines = ['#include <cstdio>', '#include "sch.ppf.hpp"', '#include "sch.pp.hpp"', 'int main()', '{']
+            for n in names:
+                lines.append('    printf("Z %s %%d %%zu\\n", int(prophy::generated::%s::encoded_byte_size), sizeof(::%s));'
+                             % (n, n, n))
+            lines += ['    return 0;', '}']
+            path = os.path.join(wd, 'consts.cpp')
+            with open(path, 'w') as f:
+                f.write('\n'.join(lines) + '\n')
+            binary = os.path.join(wd, 'consts')
+            cppdrv.compile_cpp([path], binary, [gen], sanitize=False, cxx='g++')
+            p = subprocess.run([binary], stdout=subprocess.PIPE, stderr=subprocess.PIPE, timeout=120)
+        except cppdrv.BuildFailed as e:
+            acc.prereq({'stage': e.stage, 'error': str(e)[-1500:], 'schema': text[:1500]})
+            return acc.done()
+        acc.count('schema_files_compiled')
+        got = {}
+        for ln in p.stdout.decode().split('\n'):
+            a = ln.split()
+            if len(a) == 4 and a[0] == 'Z':
+                got[a[1]] = (int(a[2]), int(a[3]))
+        from .c04 import layout_sig, KINDNAME
+        for n in names:
+            acc.ev()
+            size, align, stiff = w.tinfo(n)
+            d = sch.by_name[n]
+            nfields = len(w.fields(d)) if d.kind == 'struct' else len(d.arms)
+            if nfields >= 2:
+                acc.sig('cpp' + layout_sig(w, sch, n))
+            acc.feature('cpp-stiff-' + KINDNAME[stiff])
+            g = got.get(n)
+            sub = None
+
+            def witness(**kw):
+                sub = sch.closure(n)
+                wit = {'cpp': True, 'schema_json': sub.to_json(), 'schema': sub.to_prophy(), 'type': n,
+                       'tags': tagmap[n], 'reference': {'size': size, 'alignment': align, 'stiffness': KINDNAME[stiff]},
+                       'compiled': {'encoded_byte_size': g and g[0], 'raw_sizeof': g and g[1]}}
+                wit.update(kw)
+                return wit
+            if g is None:
+                acc.violation(PROP, 'cpp-constant-missing', witness())
+                continue
+            exp_ebs = size if stiff == S.FIXED_S else -1
+            if g[0] != exp_ebs:
+                acc.violation(PROP, 'cpp-encoded_byte_size' + ('-claims-fixed' if stiff != S.FIXED_S else ''), witness())
+            if stiff == S.FIXED_S and g[1] != size:
+                acc.violation(PROP, 'cpp-raw-sizeof', witness())
+            acc.count('cpp_constants_checked')
+    return acc.done()
